@@ -141,7 +141,7 @@ Definition catalogue : list (string * discharge) := [
      Modelled "build");
   ("src/glyph/builder.rs|impl OutlineBuilder::end_path|macro|unreachable!()",
      ModelLemma "C03_builder_unreachable");
-  ("src/glyph/mod.rs|impl Glyph::dump_object_libs|guards|for anchor in &self.anchors ;; if let Some(lib) = anchor.lib() ;; for guideline in &self.guidelines ;; if let Some(lib) = guideline.lib() ;; for contour in &self.contours ;; if let Some(lib) = contour.lib() ;; for point in &contour.points ;; if let Some(lib) = point.lib() ;; for component in &self.components ;; if let Some(lib) = component.lib()",
+  ("src/glyph/mod.rs|impl Glyph::dump_object_libs|guards|for anchor in &self.anchors ;; if let Some(lib) = anchor.lib() ;; for guideline in &self.guidelines ;; if let Some(lib) = guideline.lib() ;; for contour in self.contours.iter().filter(|c| !c.points.is_empty()) ;; if let Some(lib) = contour.lib() ;; for point in &contour.points ;; if let Some(lib) = point.lib() ;; for component in &self.components ;; if let Some(lib) = component.lib()",
      Modelled "odump");
   ("src/glyph/mod.rs|impl Contour::to_kurbo|guards|if !self.points.is_empty() && self.points.iter().all(|pt| pt.typ == PointType::OffCurve) ;; for (i, pt) in pts.iter().enumerate() ;; if self.is_closed() ;; if let Some(start) = points.next() ;; for pt in points ;; if offs.is_empty() ;; while let Some(pt) = offs.pop_front() ;; if let Some(next) = offs.front()",
      Modelled "kurbo_offcurve_sites");
@@ -211,7 +211,7 @@ Definition catalogue : list (string * discharge) := [
      ModelLemma "C03_image_to_event_ok");
   ("src/identifier.rs|impl Identifier::from_uuidv4|unwrap|Self::new(uuid::Uuid::new_v4().to_string().as_ref()).unwrap()",
      ModelLemma "C03_from_uuid");
-  ("src/layer.rs|impl LayerContents::load|guards|if layer_contents_path.exists() ;; for (name, path) in &to_load ;; let Some(dir) = plain_name(path) else ;; if !seen_names.insert(name) ;; if !seen_dirs.insert(dir) ;; if name.as_str() == DEFAULT_LAYER_NAME && dir != OsStr::new(DEFAULT_GLYPHS_DIRNAME) ;; if !filter.includes_default_layer() && !layers.iter().any(Layer::is_default)",
+  ("src/layer.rs|impl LayerContents::load|guards|if layer_contents_path.exists() ;; for (name, path) in &to_load ;; let Some(dir) = plain_name(path) else ;; if !seen_names.insert(name) ;; if !seen_dirs.insert(dir.to_string_lossy().to_lowercase()) ;; if name.as_str() == DEFAULT_LAYER_NAME && dir != OsStr::new(DEFAULT_GLYPHS_DIRNAME) ;; if !filter.includes_default_layer() && !layers.iter().any(Layer::is_default)",
      Modelled "load_layer_dir");
   ("src/layer.rs|impl LayerContents::new_layer|guards|if name == DEFAULT_LAYER_NAME ;; if self.layers.iter().any(|l| l.name == name)",
      Modelled "new_layer");
@@ -219,7 +219,7 @@ Definition catalogue : list (string * discharge) := [
      Modelled "lc_remove");
   ("src/layer.rs|impl LayerContents::rename_layer|guards|if !overwrite && self.get(new).is_some() ;; if self.get(old).is_none() ;; if new == DEFAULT_LAYER_NAME && self.layers[0].name != old ;; if old == new ;; if self.layers[0].name == new ;; if overwrite ;; if layer_pos != 0",
      Modelled "rename_layer");
-  ("src/layer.rs|impl Layer::load_impl|guards|if !contents_path.exists() ;; for (name, path) in &contents ;; let Some(file_name) = plain_name(path) else ;; if !seen_files.insert(file_name) ;; if layerinfo_path.exists()",
+  ("src/layer.rs|impl Layer::load_impl|guards|if !contents_path.exists() ;; for (name, path) in &contents ;; let Some(file_name) = plain_name(path) else ;; if !seen_files.insert(file_name.to_string_lossy().to_lowercase()) ;; if layerinfo_path.exists()",
      TypeInvariant "existence tests and the plain-file-name / duplicate tests of contents.plist values: they return errors and guard no site (the file_name().unwrap() is guarded by plain_name in LayerContents::load)");
   ("src/layer.rs|impl Layer::insert_glyph|guards|if !self.contents.contains_key(&glyph.name)",
      Modelled "insert_glyph");
